@@ -108,11 +108,18 @@ fn main() {
 }
 
 fn set_limits() {
+  if cfg!(miri) || std::env::var("VH_MIRI").is_ok() {
+    return; // the interpreter has no setrlimit
+  }
   // address-space backstop so that a hostile allocation fails fast instead of
   // depending on the machine's memory; core dumps off
   unsafe {
-    let lim = libc::rlimit { rlim_cur: 12 << 30, rlim_max: 12 << 30 };
-    libc::setrlimit(libc::RLIMIT_AS, &lim);
+    // (not under AddressSanitizer, whose shadow memory needs the whole address space; there
+    // max_allocation_size_mb bounds single requests instead)
+    if std::env::var("ASAN_OPTIONS").is_err() {
+      let lim = libc::rlimit { rlim_cur: 12 << 30, rlim_max: 12 << 30 };
+      libc::setrlimit(libc::RLIMIT_AS, &lim);
+    }
     let z = libc::rlimit { rlim_cur: 0, rlim_max: 0 };
     libc::setrlimit(libc::RLIMIT_CORE, &z);
   }
